@@ -32,7 +32,7 @@ def jobs(tier, seed):
     if os.environ.get('VERIF_C06_S3'):
         for (nr, nt, nC) in [(5, 4, 2)]:
             J.append(dict(entry='h_sweep', args=[nr, nt, nC, 1, 1, 1, 1, 0], label=f'sweep-symbolic {nr}x{nt} nC={nC}', cls='sweep-symbolic',
-                          reach=['operators-built', 'sweep-done'], eager=False, cap_quick=900, cap_thorough=3600))
+                          reach=['operators-built', 'sweep-done'], eager=False, cap_quick=900, cap_thorough=600))
     for dirbc in ((1,) if q else (0, 1)):
         for v in ((0,) if q else (0, 1, 2)):
             J.append(dict(entry='h_energy', args=[5, 4, 2, dirbc, v % 2, v], label=f'energy 5x4 dirbc={dirbc} v={v}', cls='energy', reach=['energies-built'], eager=False,
